@@ -126,7 +126,8 @@ CHECKS = {
                 "model of Lexer::yyinput_CORE reads only inside the NUL-terminated buffer, strictly advances and never passes the terminating NUL; C01_recovery_cursor_safe — the four panic-mode recovery loops, "
                 "as regenerated from Parser.cpp on this run, return with the cursor in range, never read tokenAt() out of range and never pass EndOfFile; C01_skipTo_safe, C01_match_safe, "
                 "C01_backtrack_in_range, C01_peek_in_bounds (the exact side condition for k-token look-ahead), C01_depth_bounded / C01_depth_no_spurious_error for the nesting counter with the limits read from "
-                "Parser__IMPL__.inc.  The models are tied to the compiled code by correspondence (positions visited on random byte strings; cursor after each recovery/skipTo/match/backtrack call at every cursor "
+                "Parser__IMPL__.inc; C01_member_loop_terminates — the member loop of a struct/union/enum specifier ends on every token vector for ANY member parser that stays in range and moves forward when it "
+                "succeeds (and C01_member_loop_unguarded_diverges: without the progress guard it does not — the hang `enum { enum x` of the pinned tree).  The models are tied to the compiled code by correspondence (positions visited on random byte strings; cursor after each recovery/skipTo/match/backtrack call at every cursor "
                 "position of lexed texts).  NOT a theorem: the sub-lexers and the grammar productions that drive the cursors, the reparser, memory management — these are explored: parseText in all four syntax "
                 "categories and five option sets on the repository's test snippets, token mutants, truncation at every byte, byte damage, random bytes, punctuation soup, nesting up to and just beyond the declared "
                 "limits, unterminated constructs, in the NDEBUG build and under ASan+UBSan with and without NDEBUG; failing inputs are shrunk and reported.",
